@@ -32,8 +32,42 @@ pub fn catch<T>(f: impl FnOnce() -> T) -> Option<T> {
     catch_unwind(AssertUnwindSafe(f)).ok()
 }
 
+thread_local! {
+    static LAST_PANIC: std::cell::RefCell<String> = std::cell::RefCell::new(String::new());
+}
+
+/// where and why the most recent panic on this thread happened, without line numbers or values:
+/// `translator/mips/mod.rs:attempt_to_add_with_overflow` (stable enough to serve in a finding signature)
+pub fn last_panic() -> String {
+    LAST_PANIC.with(|p| p.borrow().clone())
+}
+
 pub fn quiet_panics() {
-    std::panic::set_hook(Box::new(|_| {}));
+    let verbose = std::env::var("FVH_PANIC_MSG").is_ok();
+    std::panic::set_hook(Box::new(move |info| {
+        let file = info.location().map(|l| l.file().to_string()).unwrap_or_default();
+        let file = file.rsplit("/lib/").next().unwrap_or("").to_string();
+        let msg = if let Some(s) = info.payload().downcast_ref::<&str>() {
+            s.to_string()
+        } else if let Some(s) = info.payload().downcast_ref::<String>() {
+            s.clone()
+        } else {
+            "panic".to_string()
+        };
+        let msg: String = msg
+            .chars()
+            .map(|c| if c.is_ascii_alphabetic() { c } else { '_' })
+            .collect::<String>()
+            .split('_')
+            .filter(|w| !w.is_empty())
+            .take(8)
+            .collect::<Vec<_>>()
+            .join("_");
+        if verbose {
+            eprintln!("PANIC {}", info.to_string().replace('\n', " "));
+        }
+        LAST_PANIC.with(|p| *p.borrow_mut() = format!("{}:{}", file, msg));
+    }));
 }
 
 pub fn res_const(r: Option<Result<il::Constant, Error>>) -> String {
